@@ -448,7 +448,28 @@ func genStory(r *rand.Rand, room int) *story {
 			in = false
 		}
 		if in {
-			in = s.inRoom()
+			// round runs one round of what occupants do; a re-synchronisation inside
+			// it may have ended with the room removing the occupant, after which a
+			// Channel.Join is not expected to work any more (see 'o' below)
+			round := func() bool {
+				from := len(s.steps)
+				still := s.inRoom()
+				for _, st := range s.steps[from:] {
+					if st.Op == "kick" {
+						return false
+					}
+				}
+				return still
+			}
+			in = round()
+			// an occupant that is still in the room (the leave was refused or given
+			// up, or nothing was tried) goes on, e.g. with a second Leave, which the
+			// room confirms this time
+			for k := r.Intn(3); in && k > 0; k-- {
+				s.shape = append(s.shape, '+')
+				s.add(step{Op: "barrier"})
+				in = round()
+			}
 		}
 		s.add(step{Op: "barrier"})
 		if !in && r.Intn(5) == 0 {
